@@ -14,6 +14,7 @@ class RefHSM(object):
     self.cur = None
     self.fx_fired = {}
     self.fault = fault     # {'kind': 'init'|'none-status', 'state': F, 'signal': sig}
+    self.vars = {v: False for v in self.sp.d.get('vars', [])}
 
   # every method returns (calls, actions, fx) where
   #   calls   = [(signal kind, state)] for ENTRY/EXIT/INIT invocations the processor must make
@@ -25,6 +26,8 @@ class RefHSM(object):
       if n < f.get('max', 1):
         self.fx_fired[f['id']] = n + 1
         out.append((f, n))
+        if f['op'] == 'setvar':
+          self.vars[f['var']] = f['value']
 
   def _enter(self, n, calls, actions, fx):
     st = self.sp.states[n]
@@ -87,6 +90,8 @@ class RefHSM(object):
       if r is None:
         n = sp.parent[n]
         continue
+      if r['kind'] == 'guard':
+        r = r['then'] if self.vars.get(r['var']) else {'kind': 'decline'}
       offers.append(n)
       if r['kind'] == 'decline':
         actions.append(('decline', n))
